@@ -30,6 +30,8 @@ mod types {
     // [trusted:stand-in] crate::types::{GetBalanceRequest, GetUtxosRequest}: the internal request types (no network field)
     pub(crate) struct GetBalanceRequest { pub(crate) payload: u64 }
     pub(crate) struct GetUtxosRequest { pub(crate) payload: u64 }
+    // module path used by extracted code (`crate::types::fee_rate_per_vbyte`)
+    pub(crate) use super::fee_rate_per_vbyte;
 }
 impl From<GetBalanceRequest> for types::GetBalanceRequest {
     #[verifier::external_body]
